@@ -464,12 +464,35 @@ def _run_frame(repo, qual):
     fi = repo.function(qual)
     out = []
     stores, reads, aliases, globs = [], set(), set(), []
+    def root(e):
+        while isinstance(e, (ast.Attribute, ast.Subscript)):
+            e = e.value
+        return e
+    # names bound to something reachable from self (rp = self.run_params; res = self.result ...)
+    self_alias = set()
     for n in ast.walk(fi.node):
-        if isinstance(n, ast.Attribute) and isinstance(n.value, ast.Name) and n.value.id == "self":
-            if isinstance(n.ctx, (ast.Store, ast.Del)):
-                stores.append(f"self.{n.attr} (line {n.lineno})")
-            else:
-                reads.add(n.attr)
+        if isinstance(n, ast.Assign) and isinstance(root(n.value), ast.Name) and root(n.value).id == "self" and isinstance(n.value, (ast.Attribute, ast.Subscript)):
+            for t in n.targets:
+                if isinstance(t, ast.Name):
+                    self_alias.add(t.id)
+    for n in ast.walk(fi.node):
+        if isinstance(n, ast.Attribute) and isinstance(n.value, ast.Name) and n.value.id == "self" and not isinstance(n.ctx, (ast.Store, ast.Del)):
+            reads.add(n.attr)
+        # any store / deletion / augmented assignment whose target is reached THROUGH self (self.x = .., self.run_params.method = ..,
+        # self.result.Fn[0] = .., rp.method = .. with rp bound to self.run_params)
+        tgts = []
+        if isinstance(n, ast.Assign):
+            tgts = n.targets
+        elif isinstance(n, (ast.AugAssign, ast.AnnAssign)):
+            tgts = [n.target]
+        elif isinstance(n, ast.Delete):
+            tgts = n.targets
+        for t in tgts:
+            for tt in (t.elts if isinstance(t, (ast.Tuple, ast.List)) else [t]):
+                if isinstance(tt, (ast.Attribute, ast.Subscript)):
+                    r = root(tt)
+                    if isinstance(r, ast.Name) and (r.id == "self" or r.id in self_alias):
+                        stores.append(f"{ast.unparse(tt)} (line {n.lineno})")
         if isinstance(n, (ast.Global, ast.Nonlocal)):
             globs.append(f"line {n.lineno}")
     # names bound to (views of) the shared data
